@@ -57,12 +57,34 @@ def generate(rng, tier):
         nh, nm = 20000, 2000
     yield from M.exhaustive_single_ops("quick" if tier == "quick" else "thorough", "td")
     yield from M.exhaustive_single_ops("quick" if tier == "quick" else "thorough", "pd")
+    yield from M.dict_trait_cases()
+    for _ in range(nh // 5):
+        yield M.random_dict_trait_history(rng)
     for _ in range(nh):
         yield M.random_history(rng, "td")
     for _ in range(nh // 4):
         yield M.random_history(rng, "pd")
     for _ in range(nm):
         yield M.malformed_history(rng)
+
+
+_OWNERS = {}
+
+
+def dict_owner(kt, vt, falsy):
+    """An instance of a HasTraits class with d = Dict(<kt>, <vt>); `falsy`: the instance is alive but
+    false in a truth test (__len__ == 0), which must not make the dict treat it as absent."""
+    key = (kt, vt, falsy)
+    if key not in _OWNERS:
+        from traits import api as T
+        mk = {"Int": lambda: T.Int, "CInt": lambda: T.CInt, "CStr": lambda: T.CStr, "Any": lambda: T.Any,
+              "Range05": lambda: T.Range(0, 5)}
+        ns = {"d": T.Dict(mk[kt](), mk[vt]())}
+        if falsy:
+            ns["__len__"] = lambda self: 0
+            ns["__bool__"] = lambda self: False
+        _OWNERS[key] = type("DictOwner_%s_%s_%s" % (kt, vt, "falsy" if falsy else "truthy"), (T.HasTraits,), ns)
+    return _OWNERS[key]()
 
 
 def _hit(sig, what, **kw):
@@ -187,8 +209,13 @@ def run_impl(case):
             except Exception as e:
                 outs.append("err " + M.exc_name(e))
         return " ; ".join(outs), [], ["pd"]
-    kv, vv = M.Validator(kvs), M.Validator(vvs)
+    trait_value = kind in ("tdo", "tdof")
+    if trait_value:      # kvs / vvs name the key and value traits of a Dict trait
+        kv, vv = M.Validator(M.TRAIT_SPECS[kvs]), M.Validator(M.TRAIT_SPECS[vvs])
+    else:
+        kv, vv = M.Validator(kvs), M.Validator(vvs)
     calls = []          # (notifier position, kind, at-call copies, live objects)
+    item_events = []    # <name>_items events of a Dict trait
 
     def raw(pos):
         def notifier(td, removed, added, changed):
@@ -200,9 +227,26 @@ def run_impl(case):
             ev = dict_event_factory(td, removed, added, changed)
             calls.append((pos, "o", (dict(ev.removed), dict(ev.added)), (ev.removed, ev.added)))
         return notifier
-    notifiers = [raw(i) if c == "r" else observer(i) for i, c in enumerate(ns.strip())]
+    # notifiers are falsy callable objects, handed over in a list that is EMPTY at construction time and
+    # filled afterwards (the list given must be the list used: `notifiers is None`, not a truth test)
+    recorders = [M.Recorder(raw(i) if c == "r" else observer(i)) for i, c in enumerate(ns.strip())]
+    own = None
     try:
-        td = TraitDict(init, key_validator=kv, value_validator=vv, notifiers=notifiers)
+        if trait_value:
+            own = dict_owner(kvs, vvs, falsy=(kind == "tdof"))
+            own.d = dict(init)
+            td = own.d
+            own.on_trait_change(lambda ev: item_events.append(
+                (dict(ev.removed), dict(ev.added), dict(ev.changed))), "d_items")
+            td.notifiers.extend(recorders)
+            tags.add("owner:" + ("falsy" if kind == "tdof" else "truthy"))
+        else:
+            notifiers = []
+            td = TraitDict(init, key_validator=kv, value_validator=vv, notifiers=notifiers)
+            if td.notifiers is not notifiers:
+                hits.append(_hit("notifier-list-replaced", "TraitDict does not use the (empty) notifiers list it "
+                                 "was given"))
+            notifiers.extend(recorders)
     except Exception as e:
         return "err " + M.exc_name(e), [], ["init-err"]
     if case.startswith("#"):
@@ -215,6 +259,7 @@ def run_impl(case):
         tags.add(k)
         snap = dict(td)
         del calls[:]
+        del item_events[:]
         kv.reset()
         vv.reset()
         exc = ret = None
@@ -318,6 +363,20 @@ def run_impl(case):
                 if why is not None:
                     hits.append(_hit("observer-view:" + k, "observer #%d: %s" % (pos, why), before=_items(snap),
                                      after=_items(after), event=[_items(x) for x in at_call]))
+        if trait_value:
+            # the Dict trait's own notifier: exactly one <name>_items event per notification, same delta
+            if ns.strip():
+                expect = 1 if calls else 0
+            else:
+                expect = 1 if changed_contents else min(len(item_events), 1)
+            if len(item_events) != expect:
+                hits.append(_hit("items-event-count:" + k, "%d '<name>_items' events for an operation that %s"
+                                 % (len(item_events), "changed the dict" if expect else "changed nothing"),
+                                 owner=("falsy" if kind == "tdof" else "truthy")))
+            for ev in item_events:
+                why = check_raw(snap, after, *ev)
+                if why is not None:
+                    hits.append(_hit("items-event-law:" + k, "TraitDictEvent: " + why))
         seen = []
         for (pos, nk, at_call, live) in calls:
             seen.append(("R" if nk == "r" else "O") + "".join(M.show_sorted(x) for x in at_call))
